@@ -4,6 +4,7 @@ CONSTANTS
   StringSlotLax = FALSE
   RangeCheck = TRUE
   AnyCimIntAsIs = TRUE
+  ArrayHeadShortcut = FALSE
   Deltas <- DeltasSmall
 INVARIANT ImplWithinReq
 CHECK_DEADLOCK FALSE
